@@ -560,7 +560,13 @@ class Case:
                          "bytes": bt, "sup": bool(a.is_supported_mime_type),
                          "supp": supp_fn(c, idx, bt) if supp_fn else ABSENT,
                          "pos": a.data.tell()})
-        return {"subj": words, "from": box(c.from_email),
+        units = list(c.iterate_units())
+        full = c.get_full_text()
+        # the join law of C03, exactly as mbv/docrun.py observe() states it
+        joinok = bool(full == "\n".join(u.get_text() for u in units).strip())
+        utype = getattr(units[0].get_metadata(), "body_type", "?") if units else "none"
+        return {"nunits": len(units), "utype": str(utype), "full": body(full), "joinok": joinok,
+                "subj": words, "from": box(c.from_email),
                 "to": [box(b) for b in c.to_emails], "cc": [box(b) for b in c.to_cc],
                 "bcc": [box(b) for b in c.to_bcc], "rt": [box(b) for b in c.reply_to],
                 "date": self.project_date(c.metadata.date), "mid": self.rev_id.get(c.metadata.message_id, UNKNOWN),
